@@ -501,6 +501,7 @@ type c20WS struct {
 	Masked bool   // raw client with masking
 	Key    uint32 // masking key
 	WSKey  string // Sec-WebSocket-Key (raw client)
+	Mask   []bool `json:",omitempty"` // raw client: message k is masked iff Mask[k] (key Key+k); nil = all masked
 	// pacing (see c20Gate)
 	Pipeline bool  `json:",omitempty"` // the client sends all messages before it reads the first echo
 	Burst    int   `json:",omitempty"` // 0 = one frame per barrier, k = k frames, -1 = everything in flight
@@ -663,14 +664,22 @@ func (c *c20World) doWS(q c20WS) *c20Fail {
 		}
 		var key [4]byte
 		binary.BigEndian.PutUint32(key[:], q.Key)
+		frame := func(k int, m []byte) []byte {
+			if q.Mask == nil {
+				return wsFrame(m, true, key, 1)
+			}
+			var kk [4]byte
+			binary.BigEndian.PutUint32(kk[:], q.Key+uint32(k)*0x01010101)
+			return wsFrame(m, q.Mask[k], kk, 1)
+		}
 		if q.Pipeline {
-			for _, m := range msgs {
-				t.Write(wsFrame(m, true, key, 1))
+			for k, m := range msgs {
+				t.Write(frame(k, m))
 			}
 		}
 		for k, m := range msgs {
 			if !q.Pipeline {
-				t.Write(wsFrame(m, true, key, 1))
+				t.Write(frame(k, m))
 			}
 			c20CGate.pass(cep)
 			got, f := next()
@@ -1084,7 +1093,16 @@ func c20Run(job, tier string, deadline time.Time) *engine.Result {
 				}
 			}
 		}
-		r.Sample(map[string]interface{}{"sequences": "3 client messages + 2 server pushes over lengths {0,7,126,300}, masked and unmasked"})
+		// masked and unmasked messages mixed on one connection, every pattern, keys differing per message
+		for pat := 0; pat < 8; pat++ {
+			for _, pipe := range []bool{false, true} {
+				q := c20WS{Lens: []int{7, 126, 300}, Masked: true, Mask: []bool{pat&1 != 0, pat&2 != 0, pat&4 != 0}, Key: 0x37fa213d, WSKey: "dGhlIHNhbXBsZSBub25jZQ==", Pipeline: pipe}
+				if report(c.doWS(q), map[string]interface{}{"ws": q}) {
+					return r
+				}
+			}
+		}
+		r.Sample(map[string]interface{}{"sequences": "3 client messages + 2 server pushes over lengths {0,7,126,300}, masked and unmasked; every masked/unmasked pattern of 3 messages on one connection"})
 	}
 	return r
 }
